@@ -62,6 +62,8 @@ type Injector struct {
 	KeepLog bool
 	// Yield, if set, is called before and after every delegated call (concurrent engine); it must not hold locks.
 	Yield func(c Call, after bool)
+	// IPAMYield, if set, is called before and after every call the plugin makes on its IPAM (see ipamwrap.go).
+	IPAMYield func(method string, after bool)
 	// Filter restricts injection to matching calls (nil = all)
 	total int64
 }
